@@ -1,6 +1,6 @@
 SPECIFICATION Spec
 CONSTANTS
-  Cases <- MCT_Cases
+  Slices <- MCT_Slices
 INVARIANT OutcomeOK
 INVARIANT AcceptedRuns
 INVARIANT UpdatesHaveParamLayout
